@@ -125,19 +125,47 @@ Users(c) == {r \in Req : asg[r] = c /\ pc[r] \in {"send", "recv", "hold", "rel"}
 (* threaded through two scans; st/org are working copies because the pass  *)
 (* creates connections.                                                    *)
 (***************************************************************************)
-RECURSIVE Clean(_, _, _)
-Clean(orig, i, S) ==
+(* Clean-up in two scans (connection_pool.py, after e9bef26): first everything that is closed or has
+   expired is dropped, THEN surplus idle connections are closed, counted over what remains.
+   DEVIATION SurplusCountsStale = the single scan of the original code, in which a stale idle
+   connection further down the list is still counted and costs a healthy idle one its place. *)
+RECURSIVE CleanOne(_, _, _)
+CleanOne(orig, i, S) ==
   IF i > Len(orig) THEN S
   ELSE LET c == orig[i]
            idleN == Cardinality({j \in DOMAIN S.cur : IsIdleS(S.st[S.cur[j]])})
            keepN == IF Dev("KeepaliveCountsAll") THEN Len(S.cur) ELSE idleN
        IN IF IsClosedS(S.st[c])
-            THEN Clean(orig, i + 1, [S EXCEPT !.cur = SeqRemove(@, c)])
+            THEN CleanOne(orig, i + 1, [S EXCEPT !.cur = SeqRemove(@, c)])
           ELSE IF HasExpiredS(S.st[c], cmux[c], cexp[c], cdead[c], clock)
-            THEN Clean(orig, i + 1, [S EXCEPT !.cur = SeqRemove(@, c), !.cl = @ \cup {c}])
+            THEN CleanOne(orig, i + 1, [S EXCEPT !.cur = SeqRemove(@, c), !.cl = @ \cup {c}])
           ELSE IF IsIdleS(S.st[c]) /\ keepN > MaxKeep
-            THEN Clean(orig, i + 1, [S EXCEPT !.cur = SeqRemove(@, c), !.cl = @ \cup {c}])
-          ELSE Clean(orig, i + 1, S)
+            THEN CleanOne(orig, i + 1, [S EXCEPT !.cur = SeqRemove(@, c), !.cl = @ \cup {c}])
+          ELSE CleanOne(orig, i + 1, S)
+
+RECURSIVE DropStale(_, _, _)
+DropStale(orig, i, S) ==
+  IF i > Len(orig) THEN S
+  ELSE LET c == orig[i]
+       IN IF IsClosedS(S.st[c])
+            THEN DropStale(orig, i + 1, [S EXCEPT !.cur = SeqRemove(@, c)])
+          ELSE IF HasExpiredS(S.st[c], cmux[c], cexp[c], cdead[c], clock)
+            THEN DropStale(orig, i + 1, [S EXCEPT !.cur = SeqRemove(@, c), !.cl = @ \cup {c}])
+          ELSE DropStale(orig, i + 1, S)
+
+RECURSIVE CloseSurplus(_, _, _)
+CloseSurplus(orig, i, S) ==
+  IF i > Len(orig) THEN S
+  ELSE LET c == orig[i]
+           idleN == Cardinality({j \in DOMAIN S.cur : IsIdleS(S.st[S.cur[j]])})
+           keepN == IF Dev("KeepaliveCountsAll") THEN Len(S.cur) ELSE idleN
+       IN IF IsIdleS(S.st[c]) /\ keepN > MaxKeep
+            THEN CloseSurplus(orig, i + 1, [S EXCEPT !.cur = SeqRemove(@, c), !.cl = @ \cup {c}])
+          ELSE CloseSurplus(orig, i + 1, S)
+
+Clean(orig, i, S) ==
+  IF Dev("SurplusCountsStale") THEN CleanOne(orig, i, S)
+  ELSE LET S1 == DropStale(orig, i, S) IN CloseSurplus(S1.cur, 1, S1)
 
 FirstIdx(S, P(_)) ==
   LET I == {i \in DOMAIN S.cur : P(S.cur[i])}
@@ -186,7 +214,7 @@ ApplyPass(r, S, q, then, pcr) ==
 (* independent of the algorithm): used as an action property here and as   *)
 (* the acceptance relation for recorded passes in PoolTrace.               *)
 (***************************************************************************)
-PassRel(P, A, Q, P2, A2, CL, now, st0, countAll) ==
+PassRel(P, A, Q, P2, A2, CL, now, st0, lax) ==
   LET Pset  == SeqToSet(P)
       P2set == SeqToSet(P2)
       New   == P2set \ Pset
@@ -196,10 +224,14 @@ PassRel(P, A, Q, P2, A2, CL, now, st0, countAll) ==
       Exp(c) == HasExpiredS(st0[c], cmux[c], cexp[c], cdead[c], now)
       Av(c)  == IsAvailS(st0[c], cmux[c], cerr[c], corg[c])
       idle0 == Cardinality({c \in Pset : Id(c)})       \* idle as the public API reports it (a failed one counts)
+      idleH == Cardinality({c \in Pset : Id(c) /\ ~Cl(c) /\ ~Exp(c)})   \* idle connections the clean-up keeps
       newly == {r \in SeqToSet(Q) : A[r] = None /\ A2[r] # None}
       left  == {r \in SeqToSet(Q) : A2[r] = None}
       roomEv == {c \in Gone : ~Cl(c) /\ ~Exp(c)}      \* removed although healthy
-      keep0 == IF countAll THEN Len(P) ELSE idle0     \* DEVIATION KeepaliveCountsAll: the code counts ALL connections
+      \* lax = the deviations the relation is read with: KeepaliveCountsAll (the code counts ALL
+      \* connections), SurplusCountsStale (stale idle connections removed by the same pass count)
+      keep0 == IF "KeepaliveCountsAll" \in lax THEN Len(P)
+               ELSE IF "SurplusCountsStale" \in lax THEN idle0 ELSE idleH
       surplus == IF keep0 > MaxKeep THEN keep0 - MaxKeep ELSE 0
   IN
   \* every removal has a reason; closed ones are only dropped, the others are to be closed
@@ -342,7 +374,14 @@ ReqLock(r) ==
                \* _connection still None and establishes the connection again on the object the
                \* pool has already dropped
                Dev("ReconnectOnFailed") /\ pc' = [pc EXCEPT ![r] = "estab"] /\ UNCHANGED asg
-       ELSE pc' = [pc EXCEPT ![r] = "gate"] /\ UNCHANGED asg
+       ELSE \/ pc' = [pc EXCEPT ![r] = "gate"] /\ UNCHANGED asg
+            \/ \* a proxied connection (socks_proxy.py 299, http_proxy.py) looks at is_available()
+               \* while it still holds its connect lock: a connection that turned out HTTP/1.1 and is
+               \* NEW or busy refuses the second request right there (ConnectionNotAvailable, nothing
+               \* written) instead of at the ACTIVE gate
+               /\ ~IsAvail(asg[r])
+               /\ IF Threads THEN pc' = [pc EXCEPT ![r] = "refused"] /\ UNCHANGED asg
+                             ELSE pc' = [pc EXCEPT ![r] = "retry"] /\ asg' = [asg EXCEPT ![r] = None]
   /\ UNCHANGED <<cfg, pool, nextc, cvars, evicted, queue, tocl, nxt, exc, creq, sent, got, wdl, clock, budget, pclosed>>
 
 (* the network stream opens (TCP connect completes, connection.py 105-139); what follows
@@ -784,7 +823,7 @@ PassImplementsRel ==
   [][\A r \in Req : PassStep(r) =>
         LET Q2 == queue' IN
         PassRel(pool, [asg EXCEPT ![r] = IF pc[r] = "leave" THEN None ELSE @], Q2, pool', asg', tocl'[r], clock,
-                IF pc[r] = "leave" /\ cst' # cst /\ Orphan(r) /\ cst'[asg[r]] = "failed" THEN LeaveSt(r) ELSE cst, FALSE)]_vars
+                IF pc[r] = "leave" /\ cst' # cst /\ Orphan(r) /\ cst'[asg[r]] = "failed" THEN LeaveSt(r) ELSE cst, {})]_vars
 
 (* C16: PoolTimeout exactly at the deadline, never for a request that holds a connection *)
 PoolTimeoutExact ==
